@@ -1,4 +1,6 @@
 """C14 - Deferred-returning tests succeed iff all completed cleanly; reactor left clean."""
+import collections
+
 from hypothesis import strategies as st
 
 from vp.core import Case, Sub, V
@@ -17,13 +19,13 @@ RULE = ("Generated asynchronous test programs for AsynchronousDeferredRunTest ov
         "with each stage starting exactly when the previous one's Deferred fired; success <=> the timeline model says "
         "everything completed cleanly within the timeout with no logged error / dropped failure / leftover call; "
         "timeout or interrupt => error (interrupt also stop()); afterwards no pending delayed calls and the same "
-        "Twisted log observers; the follow-up test succeeds. Also generated: an exception INSTANCE as an ordinary stage value, a "
+        "Twisted log observers (as a multiset: each observer as often as before, any order); the follow-up test succeeds. Also generated: an exception INSTANCE as an ordinary stage value, a "
         "fractional timeout, 0-2 extra new-style and 0-1 extra legacy ambient log observers per case (so 'the observers installed before' "
         "differs from run to run), and an exhaustive no-tie grid (timeout half a unit before / after a completion; a run cut by the "
         "timeout or an interrupt after a failed expectThat). A run cut by the timeout or an interrupt (no tie) must report addError, nothing else; "
         "a run that ended, without any interrupt, while a stage's Deferred was still awaited must report addError; the runner's timeout call "
-        "is recognised as the delayed call the code under test scheduled before the first stage, due 'timeout' after the start (no private "
-        "names); stages that still run AFTER the cut are admitted iff they are the remaining clean-up in order. Non-trivial: a stage returns a not-yet-fired Deferred and "
+        "is recognised as the delayed call the code under test scheduled before the first stage, due 'timeout' after the start, during "
+        "which the reactor was stopped (no private names); stages that still run AFTER the cut are admitted iff they are the remaining clean-up in order. Non-trivial: a stage returns a not-yet-fired Deferred and "
         "(a second abnormal condition, a timing equality, or an interrupt); distinct = distinct canonical spec.")
 ASSUMPTIONS = [
     "events due at the same virtual instant (a Deferred firing exactly at the timeout, a leftover call due exactly when "
@@ -42,6 +44,16 @@ ASSUMPTIONS = [
     "unhandled failure': the generated dropped Deferreds are unreferenced at once, so the two readings agree on every generated program",
     "user stages do not install Twisted log observers or fixtures of their own (after a timeout the cleanups that would remove them "
     "are not run; audit 3 B4)",
+    "'(an interrupt also asks the result to stop)' is read as a contrast: a timeout, a failure, a SystemExit or a dirty reactor does "
+    "NOT ask the result to stop (the rest of the suite still runs); a KeyboardInterrupt raised by user code counts as an interrupt, "
+    "so after one stop() is admitted but not required (audit 4 #3)",
+    "after a SIGINT delivered to the reactor run() may return (the present runner) or re-raise KeyboardInterrupt (what the "
+    "synchronous runner does); a KeyboardInterrupt / SystemExit / GeneratorExit raised by USER code must leave run() - the documented "
+    "last_resort contract ('before re-raising uncatchable exceptions') (audit 4 #4)",
+    "'log observers are exactly those installed before' is about which observers are installed (each as often as before), not about "
+    "their order in Twisted's private list (audit 4 #1)",
+    "a failed expectThat in a stage that ran makes the finished test a failure (force_failure, the last link of the anchored "
+    "_run_deferred chain), although the statement's list of reasons for non-success does not name it",
 ]
 
 LATTICE = [0, 1, 2, 3]
@@ -199,7 +211,7 @@ def _quiet_twisted():
     if not _QUIET[0]:
         from twisted.logger import globalLogBeginner
         try:
-            # two new-style observers and a legacy one: what the runner removes and puts back is a list, in order
+            # two new-style observers and a legacy one: what the runner removes and puts back is several observers
             globalLogBeginner.beginLoggingTo([lambda event: None, lambda event: None], redirectStandardIO=False, discardBuffer=True)
             from twisted.python import log as legacy_log
             legacy_log.addObserver(lambda event_dict: None)
@@ -220,6 +232,32 @@ class PReactor(VReactor):
         self.foreign = []        # (DelayedCall, True if scheduled before the first stage had started)
         self.stages_started = 0
         self._own = False
+        self._in_external = 0
+        self.stopped_in = []     # the delayed calls during whose execution the reactor was stopped (None: not during one)
+
+    def at(self, t, fn):
+        def external():
+            self._in_external += 1
+            try:
+                return fn()
+            finally:
+                self._in_external -= 1
+        return VReactor.at(self, t, external)
+
+    def _note_stop(self):
+        # (VReactor appends a delayed call to ``fired`` right before it runs it; nothing but delayed calls and the
+        # harness's external events runs inside a pass)
+        if self.running:
+            executing = bool(self.fired) and (self.in_run or self.in_iterate) and not self._in_external
+            self.stopped_in.append(self.fired[-1][1] if executing else None)
+
+    def crash(self):
+        self._note_stop()
+        return VReactor.crash(self)
+
+    def stop(self):
+        self._note_stop()
+        return VReactor.stop(self)
 
     def own(self, delay, f, *a, **kw):
         self._own = True
@@ -397,7 +435,10 @@ def run_case(spec):
                 vs.append(V("stage-order", "log", "stages ran as %r, timeline model says %r" % (stage_log, m["log"])))
         # ---- what run() raises
         extra_nonexc = any(stages[x[0]]["result"] in NONEXC for x in extra if x[0] in stages)
-        if raised is not None and not ((m["may_propagate"] or extra_nonexc) and isinstance(raised, tuple(NONEXC.values()))):
+        # (after a SIGINT was delivered the statement does not say whether run() returns: the synchronous runner
+        # re-raises KeyboardInterrupt, the present asynchronous one returns; both are admitted)
+        reraised_interrupt = bool(reactor.interrupts_delivered) and isinstance(raised, KeyboardInterrupt)
+        if raised is not None and not reraised_interrupt and not ((m["may_propagate"] or extra_nonexc) and isinstance(raised, tuple(NONEXC.values()))):
             vs.append(V("run-raises", type(raised).__name__, "run() raised %r" % (raised,)))
         if m["propagates"] and not m["terminated"] and not m["tie"] and raised is None:
             vs.append(V("outcome", "interrupt-swallowed", "user code raised KeyboardInterrupt / SystemExit / GeneratorExit; run() returned normally (outcomes %r)" % ([e[0] for e in res.events if e[0] in OUTCOMES],)))
@@ -428,16 +469,18 @@ def run_case(spec):
                         sorted(m["bad"]), m["terminated"], out, sorted(admissible))))
             if m["terminated"] == "interrupt" and "stop" not in names:
                 vs.append(V("interrupt", "no-stop", "the run was interrupted but the result was not asked to stop"))
-            if spec["interrupt"] is None and "stop" in names:
+            user_kbi = any(stages[n_]["result"] == "kbi" for n_ in ran if n_ in stages)
+            if spec["interrupt"] is None and "stop" in names and not user_kbi:
                 # only an interrupt asks the result to stop: a timeout, a failure or a dirty reactor does not
+                # (a KeyboardInterrupt raised by a stage counts as an interrupt: stop() is admitted, not required)
                 vs.append(V("interrupt", "spurious-stop", "no interrupt was ever delivered, yet the result was asked to stop (outcome %s, terminated=%r)" % (out, m["terminated"])))
         elif out is not None and m["tie"] and out == "addSuccess" and ({"error", "failure"} & m["bad"]) and not (
                 m["bad"] == {"error"} and (m["terminated"] or True)):
             pass
         # ---- whatever else was due at that instant: once the timeout has elapsed with the chain unfinished the
         #      outcome is an error.  The runner's timeout call is recognised by what it is, not by its name: a delayed
-        #      call that the code under test (not the harness) scheduled before the first stage started and that is due
-        #      exactly ``timeout`` after the start of the run (virtual time 0).
+        #      call that the code under test (not the harness) scheduled before the first stage started, that is due
+        #      exactly ``timeout`` after the start of the run (virtual time 0) and that stopped the reactor when it ran.
         def waiting_at(n):
             """The stage whose Deferred the chain was waiting for when the reactor had begun n delayed calls (or None)."""
             started = [e for e in events if e[0] == "start" and e[2] <= n]
@@ -450,7 +493,10 @@ def run_case(spec):
             if s_["never"] or not any(e[0] == "fired" and e[1] == name and e[2] <= n for e in events):
                 return name
             return None
-        timeout_calls = [c for c, early in reactor.foreign if early and c.getTime() == spec["timeout"]]
+        # ... and, of those, only one during whose execution the reactor was stopped: a further call due at the
+        # deadline that merely notes something (a watchdog, a diagnostic) is not 'the timeout elapsing'
+        timeout_calls = [c for c, early in reactor.foreign if early and c.getTime() == spec["timeout"]
+                         and any(c is x for x in reactor.stopped_in)]
         timeout_fired = [(i, tm) for i, (tm, c) in enumerate(reactor.fired) if any(c is tc for tc in timeout_calls)]
         for i, tm in timeout_fired[:1]:
             # (a delayed call running in pass number i has i calls before it)
@@ -480,7 +526,10 @@ def run_case(spec):
         left = reactor.getDelayedCalls()
         if left:
             vs.append(V("clean", "delayed-calls-left", "%d delayed calls pending after the run: %r" % (len(left), [str(c)[:60] for c in left])))
-        if list(globalLogPublisher._observers) != observers_before or list(tlog.theLogPublisher.observers) != legacy_before:
+        # 'exactly those installed before': the same observers, each as often as before - in whatever order
+        def same_observers(now, before):
+            return collections.Counter(map(id, now)) == collections.Counter(map(id, before))
+        if not same_observers(globalLogPublisher._observers, observers_before) or not same_observers(tlog.theLogPublisher.observers, legacy_before):
             vs.append(V("clean", "log-observers", "Twisted log observers changed: %d -> %d (legacy %d -> %d)" % (
                 len(observers_before), len(globalLogPublisher._observers), len(legacy_before), len(tlog.theLogPublisher.observers))))
             for o in list(globalLogPublisher._observers):
